@@ -87,7 +87,8 @@ pub enum OpKind {
 #[derive(Clone, Debug, PartialEq, Eq)]
 pub enum Op {
     New { c: usize, max: usize, cap: Option<usize> },
-    Clone { c: usize, d: usize, base: u64 },
+    /// `from`: `d` is an existing cache and the call is `d.clone_from(&c)` (its old contents are dropped)
+    Clone { c: usize, d: usize, base: u64, from: bool },
     Drop { c: usize },
     On { c: usize, op: OpKind },
 }
@@ -217,7 +218,7 @@ impl Line {
         let mut s = match &self.op {
             Op::New { c, max, cap: None } => format!("{} new {} {}", m, c, max),
             Op::New { c, max, cap: Some(n) } => format!("{} new {} {} {}", m, c, max, n),
-            Op::Clone { c, d, base } => format!("{} clone {} {} {}", m, c, d, base),
+            Op::Clone { c, d, base, from } => format!("{} {} {} {} {}", m, if *from { "clonefrom" } else { "clone" }, c, d, base),
             Op::Drop { c } => format!("{} drop {}", m, c),
             Op::On { c, op } => format!("{} {} {}", m, c, op.text()),
         };
@@ -258,8 +259,8 @@ impl Line {
                 5 => Op::New { c: n(toks[2])?, max: n(toks[3])?, cap: Some(n(toks[4])?) },
                 _ => return None,
             },
-            "clone" if toks.len() == 5 => {
-                Op::Clone { c: n(toks[2])?, d: n(toks[3])?, base: toks[4].parse().ok()? }
+            "clone" | "clonefrom" if toks.len() == 5 => {
+                Op::Clone { c: n(toks[2])?, d: n(toks[3])?, base: toks[4].parse().ok()?, from: toks[1] == "clonefrom" }
             }
             "drop" if toks.len() == 3 => Op::Drop { c: n(toks[2])? },
             _ => {
